@@ -178,7 +178,6 @@ Proof.
   rewrite forallb_forall in F. apply F, Nat.ltb_lt in Hi.
   destruct (view_of_spec d) as [_ H2].
   assert (vi_dataset_index (nth i (view_of d) (0, 0, 0)) = i) as ->; [|reflexivity].
-  change (vi_dataset_index (nth i (view_of d) (0, 0, 0))) with (nth i (map vi_dataset_index (view_of d)) 0) at 1 || idtac.
   rewrite <- (map_nth vi_dataset_index). rewrite H2. cbn [vi_dataset_index snd]. rewrite seq_nth; auto.
 Qed.
 
